@@ -66,6 +66,13 @@ def clientClosed (tr : List (Label M E)) : Bool := tr.any isClientEOF
 
 def closeSendCalled (tr : List (Label M E)) : Bool := tr.any isCloseSend
 
+def isOutRecvCall : Label M E → Bool
+  | .outRecvCall => true
+  | _ => false
+
+/-- Forward has started to read responses from the target -/
+def readsResponses (tr : List (Label M E)) : Bool := tr.any isOutRecvCall
+
 def closeCalled (tr : List (Label M E)) : Bool :=
   tr.any (fun l => match l with | .outClose => true | _ => false)
 
